@@ -148,6 +148,34 @@ def calc(a, b, c, d):
 
 print(calc(2, 3, 2, True))
 ''',
+    # chained conditional expressions: a character range can cover `a if c else b` of
+    # `a if c else b if d else e`, which is not an expression of the grammar
+    'shaped:cond': '''\
+def pick(c, d, lo, mid, hi):
+    got = lo if c else mid if d else hi
+    return got
+
+
+print(pick(1, 0, 'l', 'm', 'h'), pick(0, 1, 'l', 'm', 'h'), pick(0, 0, 'l', 'm', 'h'))
+''',
+    # one statement, several targets: inlining one name must not lose the other stores
+    'shaped:chain': '''\
+class Rec:
+    pass
+
+
+def fill(a, b):
+    cache = {}
+    rec = Rec()
+    cache['sum'] = total = a + b
+    rec.diff = delta = a - b
+    first = second = a * b
+    (pa, pb) = pair = (a, b)
+    return total, delta, sorted(cache.items()), rec.diff, second, pa, pair, first
+
+
+print(fill(5, 3))
+''',
 }
 
 
@@ -286,12 +314,14 @@ def single_assignments(text):
             if isinstance(n, ast.Name) and isinstance(n.ctx, ast.Store):
                 stores.setdefault(n.id, []).append(n)
         for st in ast.walk(sc):
-            if isinstance(st, ast.Assign) and len(st.targets) == 1 \
-                    and isinstance(st.targets[0], ast.Name):
-                nm = st.targets[0]
-                if len(stores.get(nm.id, [])) == 1:
-                    out.append({'name': nm.id, 'pos': char_pos(lines, nm.lineno, nm.col_offset),
-                                'pure': is_pure(st.value, immutable=True)})
+            if isinstance(st, ast.Assign):
+                # every plain-name target, also of chained statements `x[k] = name = expr`
+                # (jedi may refuse those; if it does not, the other stores must survive)
+                for nm in st.targets:
+                    if isinstance(nm, ast.Name) and len(stores.get(nm.id, [])) == 1:
+                        out.append({'name': nm.id,
+                                    'pos': char_pos(lines, nm.lineno, nm.col_offset),
+                                    'pure': is_pure(st.value, immutable=True)})
     seen = set()
     res = []
     for o in out:
@@ -487,8 +517,9 @@ def _levels(tier):
     lv.append(('PF depth1 x {inst}: expression nodes, statement ranges, inline',
                [dict(t, regimes=R1) for t in pf1]))
     if tier == 'quick':
-        lv.append(('shaped:body3 + PF depth0: all character sub-ranges (clause A)',
+        lv.append(('shaped:body3, shaped:cond + PF depth0: all character sub-ranges (clause A)',
                    [dict(kind='shaped', name='shaped:body3', regimes=['chars']),
+                    dict(kind='shaped', name='shaped:cond', regimes=['chars']),
                     dict(kind='pf', src='inst', chain=[], regimes=['chars'])]))
     else:
         pf1all = [dict(kind='pf', src=s, chain=c, regimes=R1)
